@@ -2,7 +2,9 @@
 """Applies every seeded change under /verif/seeded/ to /repo in turn, runs the quick check of the property it
 targets, records the outcome in seeded/<name>/meta.json ("detected_by") and prints a table. Always restores /repo."""
 import json, os, subprocess, sys, glob
-os.chdir("/verif")
+VERIF = os.path.normpath(os.path.join(os.path.dirname(os.path.abspath(__file__)), ".."))
+REPO = os.environ.get("VERIF_REPO", "/repo")
+os.chdir(VERIF)
 rows = []
 only = sys.argv[1:]
 for d in sorted(glob.glob("seeded/*/")):
@@ -11,7 +13,7 @@ for d in sorted(glob.glob("seeded/*/")):
         continue
     meta = json.load(open(d + "meta.json"))
     pid = meta["property"]
-    ap = subprocess.run(["git", "-C", "/repo", "apply", os.path.abspath(d + "patch.diff")], capture_output=True, text=True)
+    ap = subprocess.run(["git", "-C", REPO, "apply", os.path.abspath(d + "patch.diff")], capture_output=True, text=True)
     if ap.returncode != 0:
         rows.append((name, pid, "PATCH DOES NOT APPLY", ap.stderr.strip()[:100]))
         continue
@@ -30,9 +32,9 @@ for d in sorted(glob.glob("seeded/*/")):
         meta["detected_by"] = {"check": f"tools/check.py {pid} --tier quick", "exit": p.returncode, "violation_lines": viol[:3], "what": what, "summary": summ[:1]}
         rows.append((name, pid, "DETECTED" if p.returncode == 1 and viol else "MISSED", (viol[0] if viol else "")[:110]))
     finally:
-        subprocess.run(["git", "-C", "/repo", "checkout", "--", "."])
+        subprocess.run(["git", "-C", REPO, "checkout", "--", "."])
     json.dump(meta, open(d + "meta.json", "w"), indent=1)
 # leave the harness built from the clean tree
-subprocess.run(["cargo", "build", "--offline"], cwd="/verif/harness", capture_output=True)
+subprocess.run(["cargo", "build", "--offline"], cwd=os.path.join(VERIF, "harness"), capture_output=True)
 for r in rows:
     print(" | ".join(r))
